@@ -146,7 +146,7 @@ def generate(rng, tier, prop):
             p = rng.choice(["a.bib", "b.bib", "c.bib"])
             if rng.random() < 0.3:
                 ops.append({"op": "plant", "path": p})   # a longer pre-existing file at the target
-            ops.append({"op": "save", "path": p, "fmt": f, "how": "file"})
+            ops.append({"op": "save", "path": p, "fmt": f, "how": "file", "target": rng.choice(["path", "path", "fileobj"])})
             ops.append({"op": "restart"})
             ops.append({"op": "load", "path": p, "stack": "default", "via": "file"})
             ops.append({"op": "save", "path": "again.bib", "fmt": f, "how": "file"})
@@ -563,7 +563,15 @@ def execute(run, props, force_trace=False):
                 if op.get("how") == "file":
                     prev_bytes[p] = disk.files.get(p, b"")
                     try:
-                        EP.write_file(p, lib, bibtex_format=f)
+                        if enc.lower() == "utf-8" and op.get("target", "path") == "path":
+                            EP.write_file(p, lib, bibtex_format=f)
+                            res.probes["saved_to_path"] += 1
+                        else:
+                            # the caller owns the encoding: a file object opened with it (a path target
+                            # would use whatever encoding open() defaults to, which the statement does not fix)
+                            with disk.open(p, "w", encoding=enc) as fo:
+                                EP.write_file(fo, lib, bibtex_format=f)
+                            res.probes["saved_to_file_object"] += 1
                     except Exception as e:  # noqa
                         V("C05", "save", f"write_file/{type(e).__name__}", step, f"write_file raised {type(e).__name__}: {str(e)[:200]}")
                         return res
